@@ -162,6 +162,16 @@ where
         }
     }
 
+    /// Verification hook (`--features verif`): choose the compression the flushers of this engine use.
+    ///
+    /// `StoreBuilder::with_compression` is not forwarded to the block engine, so without this setter the
+    /// compressed write / read paths cannot be reached from outside the crate.
+    #[cfg(feature = "verif")]
+    pub fn with_compression(mut self, compression: Compression) -> Self {
+        self.compression = compression;
+        self
+    }
+
     /// Set the block size for the block-based disk cache engine.
     ///
     /// Block is the minimal cache eviction unit for the block-based disk cache,
